@@ -29,6 +29,7 @@ RULES = {
     'R6': 'EXPR of next_page',
     'R7': 'sibling agreement: byte order of OutPoint in the stable index key vs Ord for Utxo',
     'R8': 'the stable source of a page is the delta-reverting accessor, unconditionally (= C08.R1b)',
+    'R9': 'the page token of a follow-up request reaches the parser unchanged (request conversion table: Page(p) | page(p) -> Page(p))',
 }
 ASSUMPTIONS = ['depth counts fit i32']
 T = 'ic_btc_canister::types::'
@@ -214,3 +215,13 @@ def r7_order_agreement(ctx, rule='R7'):
               'the stable index orders the outputs of one transaction by the %s-endian bytes of the vout, Ord for Utxo (the unstable side and the merge) by %s: '
               'for vouts >= 256 the orders differ, so a page token issued while the block was unstable selects a different suffix once it is stable '
               '(1200 outputs in one tx, page boundary at vout 1000: the follow-up page repeats 69 outputs and omits 176)' % (endian, {'num': 'numeric value', 'derived': 'numeric value'}.get(how, how)))
+
+
+# plumbing between the interface and the analysed functions (rules/plumbing.py)
+_run_before_plumbing = run
+
+
+def run(ctx):
+    _run_before_plumbing(ctx)
+    from rules import plumbing
+    plumbing.request_conversions(ctx, 'R9')
